@@ -17,13 +17,13 @@ type infeasible struct{}
 
 // fnInfo caches register numbering and post-dominators per function.
 type fnInfo struct {
-	idx   map[ssa.Value]int
-	n     int
-	ipdom map[*ssa.BasicBlock]*ssa.BasicBlock // nil value = virtual exit
-	pdOK  bool
+	idx    map[ssa.Value]int
+	n      int
+	ipdom  map[*ssa.BasicBlock]*ssa.BasicBlock // nil value = virtual exit
+	pdOK   bool
 	liveIn map[*ssa.BasicBlock]map[int]bool
-	mu    sync.Mutex
-	alt   map[*ssa.BasicBlock]*ssa.BasicBlock
+	mu     sync.Mutex
+	alt    map[*ssa.BasicBlock]*ssa.BasicBlock
 }
 
 var fnInfos sync.Map
@@ -57,8 +57,8 @@ func infoOf(fn *ssa.Function) *fnInfo {
 }
 
 type deferred struct {
-	fn   Value
-	args []Value
+	fn    Value
+	args  []Value
 	instr *ssa.Defer
 }
 
@@ -71,9 +71,9 @@ type Frame struct {
 	pc     int
 	defers []*deferred
 	// where to put the result in the caller (nil = discard)
-	retTo  ssa.Value
-	isDefer bool
-	phiOv  []Value // merged phi inputs pending for the block just entered
+	retTo    ssa.Value
+	isDefer  bool
+	phiOv    []Value // merged phi inputs pending for the block just entered
 	hasPhiOv bool
 }
 
@@ -87,16 +87,16 @@ const (
 
 // G is a simulated goroutine.
 type G struct {
-	id      int
-	frames  []*Frame
-	status  gStatus
-	waitCh  *ChanObj
-	waitWG  *Value
-	waitWhat string
-	lastEv  *Event
-	startEv *Event
+	id        int
+	frames    []*Frame
+	status    gStatus
+	waitCh    *ChanObj
+	waitWG    *Value
+	waitWhat  string
+	lastEv    *Event
+	startEv   *Event
 	spawnSite string
-	seg     *segment
+	seg       *segment
 }
 
 // Outcome of one run (path).
@@ -120,98 +120,98 @@ type Observation struct {
 
 // AssertRec records the verdicts for one assertion label on one path.
 type AssertRec struct {
-	Label   string
-	Result  string // holds | violated | unknown | trivial
-	Model   map[string]string
-	Known   string // known-finding id ("" for plain asserts)
-	Kind    string // "" = assert; "never" = satisfiability obligation
+	Label  string
+	Result string // holds | violated | unknown | trivial
+	Model  map[string]string
+	Known  string // known-finding id ("" for plain asserts)
+	Kind   string // "" = assert; "never" = satisfiability obligation
 }
 
 // Exec is the state of one run (one path) of one case.
 type Exec struct {
-	Prog   *Program
-	TS     *TermStore
-	Sol    *Solver
+	Prog    *Program
+	TS      *TermStore
+	Sol     *Solver
 	CertSol *Solver // separate clean context for the partial-order certificate
-	FPMode bool
+	FPMode  bool
 
-	gs      []*G
-	cur     *G
-	nextCh  int
-	steps   int
+	gs       []*G
+	cur      *G
+	nextCh   int
+	steps    int
 	MaxSteps int
 
 	// path condition
-	pc      []*Term
+	pc        []*Term
 	sideConds int
-	guards  []*Term // speculative guards (merge arms)
+	guards    []*Term // speculative guards (merge arms)
 
 	// decision trace
-	trace   []bool
-	pos     int
-	newAlts [][]bool
-	decisions []bool
+	trace           []bool
+	pos             int
+	newAlts         [][]bool
+	decisions       []bool
 	unknownBranches int
 
 	// merge
-	spec    int
-	undo    *[]undoRec
-	noMerge map[*ssa.BasicBlock]bool
-	noMergeAlt map[*ssa.BasicBlock]bool
-	merges  int
-	armDepths []int
-	armRet  Value
-	hasArmRet bool
+	spec        int
+	undo        *[]undoRec
+	noMerge     map[*ssa.BasicBlock]bool
+	noMergeAlt  map[*ssa.BasicBlock]bool
+	merges      int
+	armDepths   []int
+	armRet      Value
+	hasArmRet   bool
 	mergeAborts int
 
 	// results
-	Asserts []AssertRec
-	Reach   map[string]bool
-	Info    map[string]string
-	outcome Outcome
-	detail  string
-	globals map[*ssa.Global]*Value
-	nondet  []*Term
+	Asserts    []AssertRec
+	Reach      map[string]bool
+	Info       map[string]string
+	outcome    Outcome
+	detail     string
+	globals    map[*ssa.Global]*Value
+	nondet     []*Term
 	nondetSeen map[string]bool
 
 	// happens-before log
-	events  []*Event
-	edges   [][2]int
-	memAcc  map[*Value][]memAcc
-	memOrder []*Value
-	trackMem bool
+	events    []*Event
+	edges     [][2]int
+	memAcc    map[*Value][]memAcc
+	memOrder  []*Value
+	trackMem  bool
 	usedLenCh bool
 
 	// C09 write-set
-	frozen  map[*Value]bool
+	frozen       map[*Value]bool
 	frozenWrites []string
 
-	rdv     [][2]int
-	MapOrder func([]Value) []Value
-	mapCellTab map[*MapObj]*Value
-	syncTab map[*Value]*syncState
-	lockOrder []*Event
-	nAssume int
+	rdv                                  [][2]int
+	MapOrder                             func([]Value) []Value
+	mapCellTab                           map[*MapObj]*Value
+	syncTab                              map[*Value]*syncState
+	lockOrder                            []*Event
+	nAssume                              int
 	knownOutcome, knownFrozen, knownRace string
-	deadline time.Time
-	knownSeen map[string]bool
-	dynStubs map[string]*Closure
-	atomics  map[*Value]Value
-	atomicLast map[*Value]*Event
-	Concrete map[string]string // concrete mode: assignment of the nondet inputs
-	Obs      []Observation
-	NoMerge bool
-	Sched   int  // scheduling policy (see pick)
-	yield   bool // policy 2: re-pick after every completed channel operation
-	SkipReach bool // termination-only cases: Reach points are recorded without a satisfiability query
-	MergeBudget int
-	SkipInits bool
-	inInit bool
-	stubs   map[string]bool
-	funcs   map[*ssa.Function]bool
-	entryDone bool
-	fresh   int
-	inputRanges bool
+	deadline                             time.Time
+	knownSeen                            map[string]bool
+	dynStubs                             map[string]*Closure
+	atomics                              map[*Value]Value
+	atomicLast                           map[*Value]*Event
+	Concrete                             map[string]string // concrete mode: assignment of the nondet inputs
+	Obs                                  []Observation
+	NoMerge                              bool
+	Sched                                int  // scheduling policy (see pick)
+	yield                                bool // policy 2: re-pick after every completed channel operation
+	SkipReach                            bool // termination-only cases: Reach points are recorded without a satisfiability query
+	MergeBudget                          int
+	SkipInits                            bool
+	inInit                               bool
+	stubs                                map[string]bool
+	funcs                                map[*ssa.Function]bool
+	entryDone                            bool
+	fresh                                int
+	inputRanges                          bool
 }
 
 type undoRec struct {
